@@ -395,6 +395,11 @@ class SigmaDetection(ParentChainMixin):
                 )
             if len(detection_items) == 1:  # Only one detection item? Return it as result.
                 return detection_items[0]
+            elif self.item_linking is ConditionOR:
+                # OR-linked detection items (e.g. result of mapping a field to multiple fields) can't
+                # be merged into a map, because the items of a map are AND-linked. The items of a
+                # list are OR-linked.
+                return detection_items
             else:  # More than one detection item, it depends now on the types
                 if dict in detection_items_types and len(detection_items_types) > 1:
                     # Merging dicts with other types isn't possibly, at least not in a simple way.
